@@ -845,6 +845,10 @@ class Py2Cpp(ITranspiler):
 				var_symbol = self.reflections.type_of(var_value).impl(refs.Object)
 				var_type = self.to_domain_name(var_symbol)
 				literal = var_value.tokens if var_value.is_a(defs.Literal) else str(self.evaluator.exec(var_value))
+				# XXX 負数はそのまま展開すると前置の単項演算子と連結して`--3`(デクリメント)になるため、括弧で保護する (例: `-E.M.value` -> `-(-3)`)
+				if not var_symbol.type_is(str) and literal.startswith('-'):
+					literal = f'({literal})'
+
 				return self.render(node, f'{node.classification}/literalize', vars={'prop': org_prop, 'var_type': var_type, 'is_statement': is_statement, 'literal': literal[1:-1] if var_symbol.type_is(str) else literal})
 			else:
 				return self.render(node, f'{node.classification}/literalize', vars={'prop': org_prop, 'var_type': str.__name__, 'is_statement': is_statement, 'literal': receiver})
